@@ -727,7 +727,7 @@ class Div(Num):
         if den < oden:
             return other + self
 
-        if pgcd(den, oden) > 1:
+        if den % oden == 0:
             return (num + ((den // oden) * other.num)) // den
 
         return ((oden * num) + (den * other.num)) // (den * oden)
